@@ -221,7 +221,8 @@ fn kv_result(op: &KeyValueOperation, seed: u64) -> KeyValueResult {
         KeyValueOperation::Set { .. } => KeyValueResponse::Set { previous: val },
         KeyValueOperation::Delete { .. } => KeyValueResponse::Delete { previous: val },
         KeyValueOperation::Exists { .. } => KeyValueResponse::Exists { is_present: seed % 2 == 0 },
-        KeyValueOperation::ListKeys { .. } => KeyValueResponse::ListKeys { keys: (0..seed % 3).map(|i| format!("k{i}")).collect(), next_cursor: seed % 2 },
+        // now and then a listing that repeats keys (a store written to while it is listed): what the app sees must not depend on hash seeds
+        KeyValueOperation::ListKeys { .. } => KeyValueResponse::ListKeys { keys: if seed % 5 == 1 { ["k3", "k0", "k2", "k0", "k1", "k4", "k3"].iter().map(|s| s.to_string()).collect() } else { (0..seed % 3).map(|i| format!("k{i}")).collect() }, next_cursor: seed % 2 },
     } }
 }
 
